@@ -46,6 +46,14 @@ T_ENSURE  == 10 * TPS                         \* IpPairing._ensure_connected
 
 NoDeadline == 0
 At(d) == IF Timed THEN now + d ELSE NoDeadline
+\* Loose back-off (only used as a second opinion in trace validation, see harness/props/ipconn_common.py): the property
+\* demands a growing delay that is positive and never exceeds 60 s, the table above is what the code does today.  With
+\* LooseBackoff (overridden to TRUE by IpConn_Trace_*_loose.cfg) a sleeping connector remembers when it fell asleep
+\* (dl = the instant it fell asleep) and its timer may fire at any later instant d with 0 < d <= 60 s and d >= the previous full
+\* delay of the same connector run (kept in field k).
+LooseBackoff == FALSE
+SleepStart(tk) == tk.dl
+CAP == 60 * TPS
 
 \* ------------------------------------------------------------------ records
 NewSock(h) == [host |-> h, c2a |-> << >>, a2c |-> << >>, cc |-> FALSE, pclose |-> "no",
@@ -142,8 +150,10 @@ LoopHead(S, t) ==
 \* reaction of _reconnect to an exception raised by _connect_once
 SleepNext(S, t) ==   \* back-off: interval = min(60, 1.5 * interval); sleep
     LET k == S.tasks[t].k
-    IN [S EXCEPT !.tasks[t] = [@ EXCEPT !.pc = "sleep", !.wake = "none", !.dl = At(Delay(k)), !.slept = FALSE,
-                                       !.k = IF MaxK > 0 /\ k >= MaxK THEN k ELSE k + 1]]
+    IN [S EXCEPT !.tasks[t] = [@ EXCEPT !.pc = "sleep", !.wake = "none",
+                                       !.dl = IF LooseBackoff /\ Timed THEN now ELSE At(Delay(k)), !.slept = FALSE,
+                                       !.k = IF LooseBackoff /\ Timed THEN k
+                                             ELSE IF MaxK > 0 /\ k >= MaxK THEN k ELSE k + 1]]
 
 Fail(S, t, kind) ==
     \* every failure of the secure-session setup drops the transport (see fix in /repo)
@@ -250,12 +260,15 @@ TaskRun(t) ==
 TaskTimerDue(t) == Alive(t) /\ tasks[t].wake = "none" /\ tasks[t].pc \in {"tcp", "v1", "v3", "sub", "sleep"}
 TaskTimer(t) ==
     /\ TaskTimerDue(t)
-    /\ Timed => now = tasks[t].dl
+    /\ Timed => IF LooseBackoff /\ tasks[t].pc = "sleep"
+                THEN LET d == now - SleepStart(tasks[t]) IN d > 0 /\ d <= CAP /\ d >= tasks[t].k
+                ELSE now = tasks[t].dl
     /\ \E h \in (IF tasks[t].pc = "tcp" THEN tasks[t].rem ELSE {tasks[t].host}) :
        tasks' = [tasks EXCEPT ![t].wake = CASE tasks[t].pc = "tcp" -> "tmo"
                                              [] tasks[t].pc = "sleep" -> "timer"
                                              [] OTHER -> "tmo30",
-                              ![t].host = h]
+                              ![t].host = h,
+                              ![t].k = IF Timed /\ LooseBackoff /\ tasks[t].pc = "sleep" THEN now - SleepStart(tasks[t]) ELSE @]
     /\ UNCHANGED <<now, socks, cur, closing, closedF, secureF, shutdownF, lock, ref, hosts, descr, failed,
                    nxUsed, callers, attempts, userClosed, subsOk, authEnded>>
 
@@ -427,7 +440,8 @@ CloseYield(c) ==       \* IpPairing.close(): await asyncio.sleep(0)
                    nxUsed, attempts, userClosed, subsOk, authEnded>>
 
 \* ------------------------------------------------------------------ time
-Deadlines == {tasks[t].dl : t \in {u \in TaskIds : TaskTimerDue(u)}} \cup
+Deadlines == {(IF LooseBackoff /\ tasks[t].pc = "sleep" THEN SleepStart(tasks[t]) + CAP ELSE tasks[t].dl) :
+                  t \in {u \in TaskIds : TaskTimerDue(u)}} \cup
              {callers[c].dl : c \in {d \in Callers : CallerTimerDue(d)}}
 \* nothing can run without the passage of time or a new stimulus
 InternalEnabled ==
